@@ -35,6 +35,7 @@ instance by providing them in config. The above sets the
 """
 
 import datetime
+import re
 import sys
 import threading
 import time
@@ -325,7 +326,8 @@ def get(invalid_methods=('POST', 'PUT', 'DELETE'), debug=False, **kwargs):
             atoms = v.split('=', 1)
             directive = atoms.pop(0)
             if directive == 'max-age':
-                if len(atoms) != 1 or not atoms[0].isdigit():
+                if len(atoms) != 1 or not re.fullmatch(
+                        '[0-9]{1,18}', atoms[0]):
                     raise cherrypy.HTTPError(
                         400, 'Invalid Cache-Control header')
                 max_age = int(atoms[0])
